@@ -150,16 +150,79 @@ func kindsOfCanonical(s string) string {
 	return sb.String()
 }
 
+// genC15TLS: 2-3 clients whose SSLRequests, TLS handshakes and first queries
+// overlap on a fresh server (whatever the server derives lazily from its TLS
+// configuration is derived while several connections want it).
+func genC15TLS(r *Rand) *Case {
+	c := &Case{Variant: "concurrent-tls-upgrades", Server: ServerCfg{Limit: 4096, TLS: "certs"}, Programs: map[string]*Program{}}
+	if r.Chance(1, 3) {
+		c.Server.TLSVia = r.Pick("field", "late-cert")
+	}
+	n := r.Range(2, 3)
+	for i := 0; i < n; i++ {
+		key := fmt.Sprintf("t%d", i)
+		c.Programs[key] = &Program{Stmts: []*StmtProg{{Cols: []ColSpec{{Name: "v", OID: pgwire.OIDText}}, Ops: []Op{{K: "row", Row: []Val{{G: "string", S: key}}}, {K: "complete", Tag: "SELECT 1"}}}}}
+		steps := []Step{{Msgs: []pgwire.FMsg{startupMsg(fmt.Sprintf("user%d", i), "db")}}, {Msgs: []pgwire.FMsg{{K: "Q", S1: key}}}, {Msgs: []pgwire.FMsg{{K: "X"}}}}
+		tc := &TLSClient{}
+		if r.Bool() {
+			tc.MaxVer = 0x0303
+		}
+		c.Conns = append(c.Conns, ConnCase{Steps: steps, TLS: tc})
+	}
+	c.Sched = &SchedCase{Strategy: r.Pick("uniform", "pct"), Depth: 2, MaxSteps: 400000}
+	return c
+}
+
+func checkC15TLS(x *Exec, c *Case) ([]Violation, bool) {
+	var viol []Violation
+	v := c.Clone()
+	refT := make([]string, len(c.Conns))
+	for i := range c.Conns {
+		ref := c.Clone()
+		ref.Sched = nil
+		ref.Server.TLS, ref.Server.TLSVia = "", ""
+		ref.Conns = []ConnCase{c.Conns[i]}
+		ref.Conns[0].TLS = nil
+		rr := x.Run(ref)
+		if len(rr.Conns) != 1 {
+			return nil, false
+		}
+		refT[i] = Canonical(ParseOut(rr.Conns[0]).Msgs)
+		v.Conns[i].TLS.StepBytes = stepOutBytes(rr.Conns[0], len(ref.Conns[0].Steps))
+	}
+	r := x.Run(v)
+	v.Sched.Schedule = r.Schedule
+	*c = *v
+	if r.Outcome == RunBudget {
+		return nil, false
+	}
+	if r.Outcome != RunIdle {
+		return []Violation{{Prop: "C15", Rule: "concurrent-run-stuck", Sig: "concurrent-run-stuck tls", Detail: fmt.Sprintf("the concurrent TLS upgrades did not finish: outcome=%d parked=%v", r.Outcome, r.Stuck)}}, true
+	}
+	for i, cs := range r.Conns {
+		msgs, gerr := pgwire.ParseStream(cs.Plain)
+		if !cs.TLSUp || gerr != nil || Canonical(msgs) != refT[i] {
+			viol = append(viol, Violation{Prop: "C15", Rule: "connection-interference", Sig: "connection-interference tls",
+				Detail: fmt.Sprintf("connection %d of %d upgrading to TLS at the same time: handshake ok=%v, inside TLS it received %q (%v), alone in plaintext %q; client events %v", i, len(r.Conns), cs.TLSUp, pgwire.Kinds(msgs), gerr, refT[i], cs.ClientEvents)})
+			break
+		}
+	}
+	return viol, true
+}
+
 func init() {
 	register(&Prop{
 		ID: "C15", Level: "exploration", QuickS: 30, ThoroughS: 480, Race: true,
-		Rule: "seeded sets of 2-5 sessions drawn from the generators of C05-C09/C13 (simple and extended queries, COPY, failing handlers, Close) that deliberately use the same statement/portal names, different users and different Go row types for the same OIDs; each session is first served alone on a fresh server (E1), then all together on one server under 4 (quick) / 8 (thorough) seeded schedules (uniform, PCT depth 1-3; schedule points at every transport operation, callback entry, row write and spliced sync operation, so handler executions interleave at row granularity and one connection may be starved until the others are done); oracle (a): per connection the canonical transcript and callback trace equal the solo ones; oracle (b): the -race shard with the HB-transparent scheduler reports nothing (a report is attributed to the case and confirmed by replaying it alone in a fresh -race process); a quarter of the sets are preceded by a probe connection (EOF, junk, HTTP request or truncated startup packet); non-trivial = at least two connections; distinct = distinct case content hashes; distinct_interleavings = distinct (task, point) decision sequences",
+		Rule: "seeded sets of 2-5 sessions drawn from the generators of C05-C09/C13 (simple and extended queries, COPY, failing handlers, Close) that deliberately use the same statement/portal names, different users and different Go row types for the same OIDs; each session is first served alone on a fresh server (E1), then all together on one server under 4 (quick) / 8 (thorough) seeded schedules (uniform, PCT depth 1-3; schedule points at every transport operation, callback entry, row write and spliced sync operation, so handler executions interleave at row granularity and one connection may be starved until the others are done); oracle (a): per connection the canonical transcript and callback trace equal the solo ones; oracle (b): the -race shard with the HB-transparent scheduler reports nothing (a report is attributed to the case and confirmed by replaying it alone in a fresh -race process); a quarter of the sets are preceded by a probe connection (EOF, junk, HTTP request or truncated startup packet); a tenth of the cases are 2-3 clients that upgrade to TLS at the same time on a fresh server and run a short session each (transcripts compared with the plaintext solo runs; the -race shard covers the upgrade path); non-trivial = at least two connections; distinct = distinct case content hashes; distinct_interleavings = distinct (task, point) decision sequences",
 		Components: []string{
 			"real: everything on the serving path (accept loop, per-connection goroutines, handshake, command loop, caches, type maps, writers, COPY readers, pgx codecs)",
 			"stub: listener/connections, handler programs; scheduler: harness/kernel.go serialises and chooses goroutines; race oracle: Go race detector of the -race worker, kernel synchronisation hidden via runtime.RaceDisable and //go:norace",
 		},
 		Assumptions: append(append([]string{}, commonAssumptions...), "execution is serialised by the scheduler, so torn accesses cannot occur in a run; unsynchronised sharing is decided by the happens-before oracle instead"),
 		Gen: func(r *Rand, tier string) *Case {
+			if r.Chance(1, 10) {
+				return genC15TLS(r)
+			}
 			c := genConcurrent(r, r.Range(2, 5), histOpts{simple: true, extended: true, copy: r.Chance(1, 3), errs: true, params: true, binary: true, rich: true, typedNull: true, closes: true, unknownNames: true, multi: true, maxUnits: 4}, r.PickInt(1000, 4096, 65536))
 			// half of the sets run on a server with user-supplied global parameters,
 			// middlewares and callbacks that read their context back (client and
@@ -178,6 +241,9 @@ func init() {
 			return c
 		},
 		Check: func(x *Exec, c *Case) ([]Violation, bool) {
+			if c.Variant == "concurrent-tls-upgrades" {
+				return checkC15TLS(x, c)
+			}
 			n := 4
 			if RaceEnabled || x.HashOn {
 				n = 2
